@@ -151,7 +151,10 @@ def check_songdir(world, names, order, ignore_dup, slash, paths):
         listing = fsseam.permute(names, order)
         exp = expected_dir(listing, ignore_dup)
         path = base + ("/" if slash else "")
-        res = outcome(lambda: SimfileDirectory(path, filesystem=fsobj, ignore_duplicate=ignore_dup))
+        if ignore_dup:
+            res = outcome(lambda: SimfileDirectory(path, filesystem=fsobj, ignore_duplicate=True))
+        else:
+            res = outcome(lambda: SimfileDirectory(path, filesystem=fsobj))  # the documented default: duplicates raise
         tag = {"fs": fsname}
         if exp[0] == "exc":
             if res != exp:
@@ -266,7 +269,7 @@ def check_pack(world, children, order, ignore_dup, strict, slash, paths, encodin
         pdir = join(fsname, base, "Pack") + ("/" if slash else "")
         tag = {"fs": fsname}
         dirs, opened = expected_pack(tree, order, ignore_dup, strict, encoding)
-        res = outcome(lambda: SimfilePack(pdir, filesystem=fsobj, ignore_duplicate=ignore_dup))
+        res = outcome(lambda: SimfilePack(pdir, filesystem=fsobj, ignore_duplicate=True) if ignore_dup else SimfilePack(pdir, filesystem=fsobj))
         if res[0] != "ok":
             fails.append({"clause": "SimfilePack raised", "expected": "object", "observed": res, **tag})
             continue
